@@ -20,6 +20,14 @@ class _Return(Exception):
         self.v = v
 
 
+class _Break(Exception):
+    pass
+
+
+class _Continue(Exception):
+    pass
+
+
 CMP = {ast.Lt: operator.lt, ast.LtE: operator.le, ast.Gt: operator.gt, ast.GtE: operator.ge, ast.Eq: operator.eq,
        ast.NotEq: operator.ne, ast.Is: operator.is_, ast.IsNot: operator.is_not}
 
@@ -96,6 +104,25 @@ def run_body(stmts, env):
             cur = env[s.target.id]
             v = ev(s.value, env)
             env[s.target.id] = {ast.BitAnd: operator.and_, ast.BitOr: operator.or_, ast.Add: operator.add}[type(s.op)](cur, v)
+        elif isinstance(s, ast.Assign) and len(s.targets) == 1 and isinstance(s.targets[0], ast.Tuple) and all(isinstance(t, ast.Name) for t in s.targets[0].elts):
+            v = ev(s.value, env)
+            if len(v) != len(s.targets[0].elts):
+                raise AnalysisError('pure evaluator: unpacking mismatch')
+            for t, x in zip(s.targets[0].elts, v):
+                env[t.id] = x
+        elif isinstance(s, ast.For) and isinstance(s.target, ast.Name) and not s.orelse:
+            for item in list(ev(s.iter, env)):
+                env[s.target.id] = item
+                try:
+                    run_body(s.body, env)
+                except _Break:
+                    break
+                except _Continue:
+                    continue
+        elif isinstance(s, ast.Break):
+            raise _Break()
+        elif isinstance(s, ast.Continue):
+            raise _Continue()
         elif isinstance(s, ast.Expr) and isinstance(s.value, ast.Constant):
             continue
         elif isinstance(s, ast.Pass):
